@@ -190,7 +190,35 @@ class Gen:
         evs += ["call 0 get %d" % k for k in keys] + ["call 0 stats", "call 0 weight_used"]
         return dict(name=name, cfg=cfg, events=evs, profile="ttlchain")
 
+    def schedule_upsertpipe(self, name):
+        """pipelines of put_or_update calls on one or two keys while the worker lags: explicit weights from a small set (so
+        that a later request often equals an earlier charge), values, TTL changes; then everything is applied"""
+        r = self.rng
+        cfg = self.cfg("roomy")
+        cfg["queue"] = 8
+        evs = []
+        keys = [1, 2][: r.randint(1, 2)]
+        for k in keys:
+            evs += ["call 0 put_w %d %d %d" % (k, self.tok(), r.choice([5, 10, 50])), "worker"]
+        for _ in range(r.randint(3, 9)):
+            k = r.choice(keys)
+            kind = r.random()
+            if kind < 0.6:
+                evs.append("call %d upsert %d - %d - 0" % (r.randint(0, 2), k, r.choice([5, 10, 50])))
+            elif kind < 0.8:
+                evs.append("call %d upsert %d %d - - 0" % (r.randint(0, 2), k, self.tok()))
+            else:
+                evs.append("call %d upsert %d %d %d - 0" % (r.randint(0, 2), k, self.tok(), r.choice([5, 10, 50])))
+            if r.random() < 0.3:
+                evs.append("worker")
+            if r.random() < 0.2:
+                evs.append("call 0 get %d" % k)
+        evs += ["worker"] * 10 + ["call 0 get %d" % k for k in keys] + ["call 0 stats", "call 0 weight_used"]
+        return dict(name=name, cfg=cfg, events=evs, profile="upsertpipe")
+
     def schedule(self, name, profile="general", length=None):
+        if profile == "upsertpipe":
+            return self.schedule_upsertpipe(name)
         if profile == "evict2":
             return self.schedule_evict2(name)
         if profile == "ttlchain":
